@@ -471,15 +471,15 @@ def build_value(e):
     if t == "np":
         return numpy_value({"dtype": e[1], "v": e[2]})
     if t == "np0d":
-        return np.array(float(e[1]))
+        return np.array(unhex(e[1]))
     if t == "nparr":
-        return np.array([float(x) for x in e[1]])
+        return np.array([unhex(x) for x in e[1]])
     if t == "set":
         return set(str(x) for x in e[1])
     if t == "fset":
         return frozenset(str(x) for x in e[1])
     if t == "dictsub":
-        return c07_classes.DictSub([(k, build_value(x)) for k, x in e[1]], note=float(e[2]))
+        return c07_classes.DictSub([(k, build_value(x)) for k, x in e[1]], note=unhex(e[2]))
     if t == "gridsearch":
         return af.SearchGridSearch(search=af.m.MockSearch(name="g"), number_of_steps=int(e[1]), number_of_cores=int(e[2]))
     raise ValueError(t)
